@@ -25,7 +25,7 @@ ASSUMPTIONS = ["a slow constructor (sleep) is a legitimate application behaviour
 REQUIRED_REACH = ["single_ok", "session_ok", "percall_ok", "creator_counts_ok", "failing_creator_ok", "racing_first_calls", "session_instances_dropped", "schedules_explored", "multi_daemon_ok"]
 SHARD_TIMEOUT = {"quick": 240, "thorough": 2800}
 SHAPES = ["truthy", "falsy_len", "falsy_bool", "eq_always"]
-CREATORS = ["none", "ok", "raises", "wrongtype"]
+CREATORS = ["none", "ok", "raises", "wrongtype", "subclass"]     # subclass: the creator returns an instance of a subclass (allowed by the daemon's isinstance check)
 
 
 class Book:
@@ -73,6 +73,8 @@ def make_class(P, mode, shape, creator, slow=0.0):
         Inst.__hash__ = lambda self: 7
     Inst = P.server.expose(Inst)
 
+    subcls = []
+
     def mk(cls):
         with book.lock:
             book.creator_calls += 1
@@ -80,7 +82,12 @@ def make_class(P, mode, shape, creator, slow=0.0):
             raise RuntimeError("creator failed")
         if creator == "wrongtype":
             return "not an instance"
-        obj = cls()
+        if creator == "subclass":
+            if not subcls:
+                subcls.append(type("SubOf" + cls.__name__, (cls,), {}))
+            obj = subcls[0]()
+        else:
+            obj = cls()
         with book.lock:
             book.creator_results += 1
         return obj
@@ -185,7 +192,7 @@ def socket_case(fx, mode, shape, creator, nconn, ncalls, rec, r, sername, race):
                 rec.violation("percall-instance-reused", "percall/%s/%s: %d calls, %d distinct instances, %d constructed" % (shape, creator, len(ok_calls), len(insts), len(created)), pay)
                 return
             rec.count("percall_ok")
-        if creator == "ok":
+        if creator in ("ok", "subclass"):
             if ccalls != len(created) or cres != len(created):
                 rec.violation("creator-call-count", "%s/%s: creator invoked %d times for %d instances created" % (mode, shape, ccalls, len(created)), pay)
                 return
@@ -286,7 +293,7 @@ def multi_daemon_case(fxs, make_fx, mode, shape, creator, rec, r, sername):
                 rec.violation("single-instance-shared-between-daemons", "single/%s/%s: %d daemons of one process serve the same class, %d instance(s) were constructed; "
                               "instance -> daemons served: %r (one instance per daemon expected)" % (shape, creator, len(per_daemon), len(created), owners), pay)
                 return
-            if creator == "ok" and ccalls != len(per_daemon):
+            if creator in ("ok", "subclass") and ccalls != len(per_daemon):
                 rec.violation("creator-call-count", "single/%s: creator invoked %d times for %d daemons" % (shape, ccalls, len(per_daemon)), pay)
                 return
         elif mode == "session":
@@ -368,7 +375,7 @@ def check_sched(P, mode, shape, creator, nthreads, rec, sc, res, got, book, pay)
     if mode == "session" and (len(set(vals)) != nthreads or len(book.created) != nthreads):
         rec.violation("session-mode-instance-count:" + shape, "session/%s: %d connections got instances %r, %d constructed" % (shape, nthreads, vals, len(book.created)), pay)
         return False
-    if creator == "ok" and book.creator_calls != len(book.created):
+    if creator in ("ok", "subclass") and book.creator_calls != len(book.created):
         rec.violation("creator-call-count", "creator invoked %d times for %d instances" % (book.creator_calls, len(book.created)), pay)
         return False
     return True
@@ -413,7 +420,7 @@ def run_shard(shard, rec):
     r = gen.rng(rec.seed, "c09", repr(sorted(shard.items())))
     if shard["kind"] == "sched":
         for shape in SHAPES:
-            for creator in (["none", "ok"] if shard["mode"] == "single" else ["none"]) + (["raises"] if shape == "truthy" else []):
+            for creator in (["none", "ok", "subclass"] if shard["mode"] == "single" else ["none", "subclass"]) + (["raises"] if shape == "truthy" else []):
                 explore(P, shard["mode"], shape, creator, shard["nthreads"], shard["bound"], shard["nrandom"], rec, r)
         return
     make_fx = lambda: fixture.Fixture(servertype=shard["servertype"], COMMTIMEOUT=0.0, THREADPOOL_SIZE=40, THREADPOOL_SIZE_MIN=2)
@@ -423,7 +430,7 @@ def run_shard(shard, rec):
         mode = shard["mode"]
         for rep in range(shard["reps"]):
             for shape in SHAPES:
-                for creator in ("none", "ok"):
+                for creator in ("none", "ok", "subclass"):
                     multi_daemon_case([fx, fx2], make_fx, mode, shape, creator, rec, r, r.choice(fixture.SERIALIZERS))
             for shape in SHAPES:
                 for creator in CREATORS:
